@@ -100,7 +100,22 @@ void Runner::on_poll_return(Thread *t, const pollfd_sim *, size_t, int) {
   cx.poll_returned = true;
 }
 
-void Runner::op_poll(Thread *t, int idx, const Op &op, OpRes &res) {
+void Runner::op_poll(Thread *t, int idx, const Op &op_in, OpRes &res) {
+  // binding differential: reproc++ sources own their process, so a handle can appear only once and never be NULL
+  Op op_c;
+  if (plan.profile == "C19") {
+    op_c = op_in;
+    op_c.v.clear();
+    std::set<int> seen;
+    for (size_t i = 0; i + 1 < op_in.v.size(); i += 2) {
+      int hi = (int) op_in.v[i];
+      if (hi < 0 || (size_t) hi >= hs.size() || hs[(size_t) hi].st == LS_NONE || hs[(size_t) hi].st == LS_INCHILD || seen.count(hi)) continue;
+      seen.insert(hi);
+      op_c.v.push_back(hi);
+      op_c.v.push_back(op_in.v[i + 1]);
+    }
+  }
+  const Op &op = plan.profile == "C19" ? op_c : op_in;
   size_t n = op.v.size() / 2;
   OpCtx &cx = octx[(size_t) t->tid];
   std::vector<ShimSource> src(n ? n : 1);
@@ -230,7 +245,7 @@ void Runner::op_poll(Thread *t, int idx, const Op &op, OpRes &res) {
     if (earliest_hi >= 0 && h->dl_lo_ms > earliest_hi)
       viol("C08", "deadline-event-wrong-source", "sources=" + pat, fmt("source %zu (deadline %lld ms) is not the one with the earliest deadline (%lld ms)", who,
                                                                       (long long) h->dl_lo_ms, (long long) earliest_hi), idx);
-    if (timeout >= 0 && std::max(t0ms + timeout, cx.last_clock_ms) + 1 < h->dl_lo_ms)
+    if (timeout >= 0 && std::max(t0ms, cx.last_clock_ms) + timeout + 1 < h->dl_lo_ms)
       viol("C08", "deadline-event-before-timeout", "sources=" + pat, "the timeout lies before the deadline but the deadline event was reported", idx);
     int eqc = 0;
     for (size_t i = 0; i < n; i++) if (hv[i] && hv[i]->dl_lo_ms == h->dl_lo_ms) eqc++;
